@@ -21,11 +21,12 @@ def charge (c : Cache) (cost coster : Int) : Int :=
 /-- **the item a new insert enqueues carries `cost + coster-if-cost-is-0`** -/
 theorem insert_enqueues_effective_cost (c : Cache) (su : Nat → Nat → Bool) (k cf v : Nat) (cost : Int)
     (ttl now : Nat) (coster : Int) (hopen : c.closed = false)
-    (habs : c.store.items.get k = none) (hroom : c.buf.length < c.cfg.bufCap) :
+    (habs : c.store.items.get k = none) (hroom : c.buf.length < c.cfg.bufCap)
+    (halive : c.procExited = false) :
     (c.insert su k cf v cost ttl now coster false) =
       ({ c with buf := c.buf ++ [Item.new k cf (effectiveCost cost coster) v { d := ttl, created := now }] }, true) := by
-  unfold Cache.insert Store.tryUpdate
-  simp only [hopen, habs, hroom, Bool.false_eq_true, if_false, Bool.false_and, if_true]
+  unfold Cache.insert Cache.insertBody Store.tryUpdate
+  simp only [hopen, habs, hroom, halive, Bool.false_eq_true, if_false, Bool.false_and, if_true]
   unfold effectiveCost
   by_cases h0 : cost = 0
   · simp [h0]
